@@ -9,10 +9,12 @@ from extras import pod_features, macro_lab_c15, macro_lab_c18, macro_lab_c19
 
 PROPS = {
     "C01": {
-        "harness_feature": "f_tlv",
+        "harness_feature": "f_tlv,f_varlen",
         "lean_module": "SplProofs.C01",
-        "streams": ["C01"],
-        "rule": "stream tlvhist: histories from a zeroed buffer (sizes 0..300, weighted to exact fit and +-1..12 around it) over an adversarial 8-tag palette and value sizes 0/1/3/5(non-zero default)/8/32 and variable lengths: alloc +-repetition, init_value, realloc to 0 / same / exact fit / fit+1 / > u32::MAX, byte and typed writes through the mutable views, var-len pack (streaming packer), alloc_and_pack, lookups (incl. the get_first_* / *_first_* wrappers for repetition 0), get_discriminators, reopen through the three views; the generator steers towards failing operations at every state; plus special cases outside the line protocol's buffers: entries whose length needs the 3rd/4th length byte (up to 16 MiB) and a 4 GiB zeroed buffer for the length-not-representable failure; after every op the raw buffer, returned slice range (pointer arithmetic) and repetition number are compared with the model and with a shadow Vec<(tag, Vec<u8>)> + independent canonical encoder;  non-trivial = history with >= 2 successful mutations on >= 2 entries and a resize/write that is not on the last entry",
+        # the second stream is C15's: the account-level variable-length rewrite (realloc_and_pack_*, with repetition numbers) is a
+        # resize-and-write of one entry too, and its read-your-writes / isolation clauses are C01's
+        "streams": ["C01", "C15"],
+        "rule": "stream tlvhist: histories from a zeroed buffer (sizes 0..300, weighted to exact fit and +-1..12 around it) over an adversarial 8-tag palette and value sizes 0/1/3/5(non-zero default)/8/32 and variable lengths: alloc +-repetition, init_value, realloc to 0 / same / exact fit / fit+1 / > u32::MAX, byte and typed writes through the mutable views, var-len pack (streaming packer), alloc_and_pack, lookups (incl. the get_first_* / *_first_* wrappers for repetition 0), get_discriminators, reopen through the three views; the generator steers towards failing operations at every state; plus special cases outside the line protocol's buffers: entries whose length needs the 3rd/4th length byte (up to 16 MiB) and a 4 GiB zeroed buffer for the length-not-representable failure; after every op the raw buffer, returned slice range (pointer arithmetic) and repetition number are compared with the model and with a shadow Vec<(tag, Vec<u8>)> + independent canonical encoder;  non-trivial = history with >= 2 successful mutations on >= 2 entries and a resize/write that is not on the last entry; second stream varlen-account (see C15): account-level rewrites of first/middle/last and repeated entries to the same, a shorter and a longer encoded size",
         "assumptions": COMMON_ASSUME + ["type tags are 8-byte non-zero discriminators", "typed reads/writes use align-1 Pod types"],
     },
     "C03": {
@@ -182,6 +184,8 @@ PROPS = {
     "C16": {
         "harness_feature": "f_token",
         "lean_module": "SplProofs.C16",
+        # the validity predicates C16's theorems rest on are the ones regenerated from the source for C17
+        "extra_modules": ["SplProofs.C17Source"],
         "streams": ["C16"],
         "rule": "stream tokref: states packed by spl-token-interface / spl-token-2022-interface (base, marker+arbitrary tail, real extensions), "
                 "padding variants and byte/truncation mutants; a case is non-trivial when the buffer has a layout length (82, >=165) and so "
